@@ -697,7 +697,9 @@ var blockStarts = []func(*lineParser){
 		}
 		for i, conds := range htmlBlockConditions {
 			if conds.startCondition(line) {
-				if !conds.canInterruptParagraph && p.ContainerKind() == ParagraphKind {
+				if !conds.canInterruptParagraph && p.TipKind() == ParagraphKind {
+					// This includes the case where the line is a lazy continuation line
+					// of a paragraph inside a container that was not matched.
 					return
 				}
 				p.OpenHTMLBlock(i)
